@@ -4,41 +4,119 @@
 From Coq Require Import List String Bool Arith Lia FunctionalExtensionality.
 From QV Require Import Found.Circ Model.ResolveTypes Gen.Decompose Gen.Gates Model.Resolve.
 From QV Require Import Proofs.ResolveLemmas Proofs.ResolveChkDefs.
-From QV Require Import Proofs.ResolveChk0 Proofs.ResolveChk1 Proofs.ResolveChk2 Proofs.ResolveChk3
-                       Proofs.ResolveChk4 Proofs.ResolveChk5 Proofs.ResolveChk6 Proofs.ResolveChk7.
+From QV Require Import Proofs.ResolveChk0 Proofs.ResolveChk1 Proofs.ResolveChk2 Proofs.ResolveChk3.
 Import ListNotations.
 
 (* ---- facts about the generated tables, by computation -------------------------------------------------------------- *)
 Lemma marker_fixed : pauli_marker_to_temp = true. Proof. reflexivity. Qed.
 Lemma listified_fixed : str_basis_listified = true. Proof. reflexivity. Qed.
 Lemma passes_ok : passes_complete = true. Proof. vm_compute. reflexivity. Qed.
-Lemma slices_cover : all_cfgs = slice 0 ++ slice 1 ++ slice 2 ++ slice 3 ++ slice 4 ++ slice 5 ++ slice 6 ++ slice 7.
-Proof. vm_compute. reflexivity. Qed.
+Lemma kslices_cover : forall k, In k kinds -> In k (kslice 0 ++ kslice 1 ++ kslice 2 ++ kslice 3).
+Proof.
+  assert (H : forallb (fun k => existsb (fun k' => String.eqb (fst k) (fst k')) (kslice 0 ++ kslice 1 ++ kslice 2 ++ kslice 3)) kinds = true)
+    by (vm_compute; reflexivity).
+  assert (N : NoDup (map fst kinds)) by (vm_compute; repeat (constructor; [simpl; intuition discriminate|]); constructor).
+  intros k Hk. rewrite forallb_forall in H. specialize (H k Hk). apply existsb_exists in H. destruct H as [k' [Hk' E]].
+  apply String.eqb_eq in E.
+  assert (Hk'' : In k' kinds).
+  { repeat (apply in_app_or in Hk'; destruct Hk' as [Hk'|Hk']); unfold kslice in Hk'; apply filter_In in Hk'; tauto. }
+  assert (k = k').
+  { clear - N E Hk Hk''. revert N Hk Hk''. generalize kinds. induction l as [|x l IH]; intros N H1 H2; [destruct H1|].
+    simpl in N. inversion N as [|? ? Hx Hl]; subst. destruct H1 as [->|H1]; destruct H2 as [->|H2]; try reflexivity.
+    - exfalso. apply Hx. rewrite E. apply in_map. exact H2.
+    - exfalso. apply Hx. rewrite <- E. apply in_map. exact H1.
+    - exact (IH Hl H1 H2). }
+  subst k'. exact Hk'.
+Qed.
 Lemma rules_ok : forallb check_rule kinds = true. Proof. vm_compute. reflexivity. Qed.
 Lemma basis_ok : forallb (fun c => negb (valid_cfg c) || forallb (check_basis c) kinds) all_cfgs = true.
 Proof. vm_compute. reflexivity. Qed.
 Lemma success_ok : forallb (fun c => negb (valid_cfg c) || forallb (check_ok c) kinds) all_cfgs = true.
 Proof. vm_compute. reflexivity. Qed.
 
-Lemma sem_ok_app l1 l2 : sem_ok l1 = true -> sem_ok l2 = true -> sem_ok (l1 ++ l2) = true.
-Proof. unfold sem_ok. intros H1 H2. rewrite forallb_app, H1, H2. reflexivity. Qed.
+Lemma cover_ok : forallb (fun k => forallb (fun c => memc (canon c k) (canons k)) all_cfgs) kinds = true.
+Proof. vm_compute. reflexivity. Qed.
+Lemma agree_ok : forallb (fun k => forallb (fun c => agree c (canon c k) (dispatched k)) all_cfgs) kinds = true.
+Proof. vm_compute. reflexivity. Qed.
 
-Lemma sem_all : sem_ok all_cfgs = true.
+(* kernel-friendly extraction of one obligation: the lists stay abstract while the booleans are taken apart *)
+Lemma forallb2_in {A B} (F : A -> B -> bool) (la : list A) (lb : list B) a b :
+  forallb (fun x => forallb (F x) lb) la = true -> In a la -> In b lb -> F a b = true.
 Proof.
-  rewrite slices_cover.
-  apply sem_ok_app; [exact chk_sem_0|]. apply sem_ok_app; [exact chk_sem_1|]. apply sem_ok_app; [exact chk_sem_2|].
-  apply sem_ok_app; [exact chk_sem_3|]. apply sem_ok_app; [exact chk_sem_4|]. apply sem_ok_app; [exact chk_sem_5|].
-  apply sem_ok_app; [exact chk_sem_6|exact chk_sem_7].
+  intros H Ha Hb. rewrite forallb_forall in H. specialize (H a Ha). rewrite forallb_forall in H. exact (H b Hb).
 Qed.
 
-(* kernel-friendly extraction of one obligation: the lists stay abstract while the boolean is taken apart *)
-Lemma sem_ok_in l c k : sem_ok l = true -> In c l -> In k kinds -> check_sem c k = true.
+Lemma obls_ok_app l1 l2 : obls_ok l1 = true -> obls_ok l2 = true -> obls_ok (l1 ++ l2) = true.
+Proof. unfold obls_ok. intros H1 H2. rewrite forallb_app, H1, H2. reflexivity. Qed.
+Lemma obls_all : obls_ok (kslice 0 ++ kslice 1 ++ kslice 2 ++ kslice 3) = true.
 Proof.
-  unfold sem_ok. generalize kinds. intros ks H Hc Hk. rewrite forallb_forall in H.
-  specialize (H c Hc). rewrite forallb_forall in H. exact (H k Hk).
+  apply obls_ok_app; [exact chk_sem_0|]. apply obls_ok_app; [exact chk_sem_1|]. apply obls_ok_app; [exact chk_sem_2|exact chk_sem_3].
 Qed.
+Lemma obl_in l k c : obls_ok l = true -> In k l -> In c (canons k) -> check_sem c k = true.
+Proof.
+  unfold obls_ok. intros H Hk Hc. rewrite forallb_forall in H. specialize (H k Hk). unfold obl_ok in H.
+  rewrite forallb_forall in H. exact (H c Hc).
+Qed.
+
+Lemma list_eqb_eq a : forall b, list_eqb a b = true -> a = b.
+Proof.
+  induction a as [|x a IH]; intros [|y b]; simpl; try discriminate; [reflexivity|].
+  intros H. apply andb_prop in H. destruct H as [E H]. apply String.eqb_eq in E. rewrite E, (IH b H). reflexivity.
+Qed.
+Lemma cfg_eqb_eq a b : cfg_eqb a b = true -> a = b.
+Proof.
+  destruct a as [a1 a2 a3], b as [b1 b2 b3]. unfold cfg_eqb. cbn [c2q crot celim]. intros H.
+  apply andb_prop in H. destruct H as [H H3]. apply andb_prop in H. destruct H as [H1 H2].
+  apply list_eqb_eq in H1. apply list_eqb_eq in H2. apply Bool.eqb_prop in H3. subst. reflexivity.
+Qed.
+Lemma memc_in c l : memc c l = true -> In c l.
+Proof. unfold memc. intros H. apply existsb_exists in H. destruct H as [x [Hx E]]. apply cfg_eqb_eq in E. subst. exact Hx. Qed.
+
+(* configurations that agree on what the gate observes decompose it identically *)
+Lemma stage2_first c c' l : first_2q c = first_2q c' -> stage2 c l = stage2 c' l.
+Proof. intros E. unfold stage2. rewrite E. reflexivity. Qed.
+Lemma stage3_same c c' l : celim c = celim c' -> (celim c = true -> crot c = crot c') -> stage3 c l = stage3 c' l.
+Proof.
+  intros E1 E2. unfold stage3. rewrite <- E1. destruct (celim c); [|reflexivity]. apply rflat_ext. intros g.
+  unfold elim_gate. rewrite (E2 eq_refl). reflexivity.
+Qed.
+Lemma opt_eqb_eq a b : opt_eqb a b = true -> a = b.
+Proof. destruct a, b; simpl; try discriminate; [|reflexivity]. intros E. apply String.eqb_eq in E. subst. reflexivity. Qed.
+
+Lemma agree_resolve c c' keep g p : agree c c' (gname (snd p)) = true -> pauli g = Ok p ->
+  resolve_gate c keep g = resolve_gate c' keep g.
+Proof.
+  unfold agree. intros H Hp.
+  apply andb_prop in H. destruct H as [H H5]. apply andb_prop in H. destruct H as [H H4].
+  apply andb_prop in H. destruct H as [H H3]. apply andb_prop in H. destruct H as [H1 H2].
+  apply Bool.eqb_prop in H1. apply Bool.eqb_prop in H2. apply opt_eqb_eq in H3. apply Bool.eqb_prop in H4.
+  assert (E5 : celim c = true -> crot c = crot c').
+  { intros Ec. rewrite Ec in H5. cbn [negb orb] in H5. apply list_eqb_eq. exact H5. }
+  unfold resolve_gate, stage1. rewrite Hp. cbn [rbind].
+  assert (EU : to_universal c keep (snd p) = to_universal c' keep (snd p)).
+  { unfold to_universal. rewrite <- H1.
+    change (((gname (snd p) =? "SWAP")%string && mem "ISWAP" (c2q c'))) with ((String.eqb (gname (snd p)) "SWAP" && mem "ISWAP" (c2q c'))).
+    rewrite <- H2. reflexivity. }
+  rewrite EU. destruct (to_universal c' keep (snd p)) as [gs|]; cbn [rbind]; [|reflexivity].
+  rewrite (stage2_first c c' _ H3). destruct (stage2 c' (fst p ++ gs)) as [q|]; cbn [rbind]; [|reflexivity].
+  apply stage3_same; assumption.
+Qed.
+
+Lemma check_sem_canon c k : In c all_cfgs -> In k kinds -> check_sem c k = check_sem (canon c k) k.
+Proof.
+  intros Hc Hk. pose proof (forallb2_in (fun k c => agree c (canon c k) (dispatched k)) kinds all_cfgs k c agree_ok Hk Hc) as A.
+  cbn beta in A. unfold check_sem. unfold dispatched in A.
+  destruct (pauli (generic (fst k) (snd k) 0)) as [p|] eqn:Ep.
+  - rewrite (agree_resolve c (canon c k) no_keep _ p A Ep). reflexivity.
+  - unfold resolve_gate, stage1. rewrite Ep. reflexivity.
+Qed.
+
 Lemma check_sem_true c k : In c all_cfgs -> In k kinds -> check_sem c k = true.
-Proof. exact (sem_ok_in all_cfgs c k sem_all). Qed.
+Proof.
+  intros Hc Hk. rewrite (check_sem_canon c k Hc Hk).
+  apply (obl_in _ k (canon c k) obls_all (kslices_cover k Hk)).
+  apply memc_in. exact (forallb2_in (fun k c => memc (canon c k) (canons k)) kinds all_cfgs k c cover_ok Hk Hc).
+Qed.
 
 Lemma guarded_in {A B} (v : A -> bool) (F : A -> B -> bool) (la : list A) (lb : list B) a b :
   forallb (fun x => negb (v x) || forallb (F x) lb) la = true -> In a la -> v a = true -> In b lb -> F a b = true.
